@@ -295,6 +295,45 @@ def simple_and_linear(ck, rng):
         ck.violation("map-linear:differs-from-kernel-sum", {"err": float(np.abs(f - ref).max())})
 
 
+def shipped_plan_end_to_end(ck, rng):
+    """The shipped mapping plan (models/kernel_plans/arbf_exchange.py: get_kernel + mapping_plan) through DFTKernel.map: the
+    mapped kernel must reproduce, on admissible raw features, the energy density and feature derivatives of the same DFT kernel
+    evaluated with the Python kernel sum (KernelEvaluator), as a ladder in the spline density."""
+    from ciderpress.dft import baselines
+    from ciderpress.dft.xc_evaluator import MappedDFTKernel
+    from ciderpress.models.dft_kernel import DFTKernel
+    from ciderpress.models.kernel_plans import arbf_exchange
+    from ciderpress.models.kernel_plans.map_tools import get_mapped_gp_evaluator_additive
+    nfeat_raw = 5                                             # rho + 4 features
+    fl = FeatureList([UMap(i, 0.3 + 0.1 * i) for i in range(1, nfeat_raw)])      # N1 = 4, the first one is the "single" dimension
+    nat_l = np.array([0.4, 0.5, 0.6, 0.45])
+    kern = quiet(arbf_exchange.get_kernel, natural_scale=1.0, natural_lscale=nat_l, scale_factor=0.8, lscale_factor=1.1)
+    for mode, nspin in (("SEP", 1), ("SEP", 2), ("NPOL", 2)):
+        dk = DFTKernel(kern, fl, mode, "LDA_X" if False else baselines.lda_x, baselines.zero_xc)
+        nctrl = 9
+        dk.X1ctrl = np.asfortranarray(rng.uniform(0.05, 0.95, size=(nctrl, fl.nfeat)))
+        dk.alpha = rng.normal(size=nctrl) * 0.2
+        X0T = rng.uniform(0.1, 2.0, size=(nspin, nfeat_raw, 14))
+        ref = MappedDFTKernel([KernelEvaluator(dk.kernel, dk.X1ctrl, dk.alpha)], fl, mode, baselines.lda_x, baselines.zero_xc)
+        e0, de0 = ref(X0T.copy(), rhocut=1e-9)
+        errs = []
+        for dens in (8, 16, 32):
+            ck.count(key=("shipped-plan", mode, nspin, dens))
+
+            def plan(k_, dens=dens):
+                out = quiet(get_mapped_gp_evaluator_additive, k_.kernel, k_.X1ctrl, k_.alpha, k_.feature_list, srbf_density=dens, arbf_density=dens, max_ngrid=400)
+                return SplineSetEvaluator(*out)
+            try:
+                mk = dk.map(plan if dens != 8 else (lambda k_: quiet(arbf_exchange.mapping_plan, k_)))
+                e, de = mk(X0T.copy(), rhocut=1e-9)
+            except Exception as ex:
+                ck.violation("shipped-plan:%s:%s" % (mode, type(ex).__name__), {"nspin": nspin, "msg": str(ex)[:200]})
+                break
+            errs.append((dens, float(np.abs(np.asarray(e) - e0).max() / (1e-300 + np.abs(e0).max())), float(np.abs(np.asarray(de) - de0).max() / (1e-300 + np.abs(de0).max()))))
+        if errs and (errs[-1][1] > 2e-3 or errs[-1][2] > 3e-2 or errs[-1][1] > max(errs[0][1], 1e-6)):
+            ck.violation("shipped-plan:%s:nspin=%d:mapped-model-differs-from-kernel-sum" % (mode, nspin), {"ladder(density,value,deriv)": errs})
+
+
 def k0_factor(ck, rng):
     """the per-dimension factor used for mapping equals the factor the kernel itself uses"""
     nd = 3
@@ -358,6 +397,7 @@ def main():
     for ns, na, order, kind, lay in lay_cases:
         additive_case(ck, rng, model_terms, ns, na, order, kind, (8, 16, 32) if ns + order <= 3 else (8, 16), layout=lay)
     simple_and_linear(ck, rng)
+    shipped_plan_end_to_end(ck, rng)
     k0_factor(ck, rng)
     ck.traces = len(cases)
     ck.sample({"case(ns,na,order,kind)": cases[3], "model_terms": model_terms[(cases[3][0], cases[3][1], cases[3][2], "front")][0]})
